@@ -16,10 +16,11 @@ from lib import common
 from lib.common import cps, uncps
 from corr import numlib, numerals, numkeys
 from lib import numcjkcorr
+from lib import numbigcorr
 
 PROP = 'C04'
 LEVEL = 'proof'
-PROPS_MODULES = ['RTV.Props.C04', 'RTV.Props.C04Cjk']
+PROPS_MODULES = ['RTV.Props.C04', 'RTV.Props.C04Cjk', 'RTV.Props.C04Big']
 GEN = ['nummaps', 'chartables', 'numcjk']
 REQUIRED_THEOREMS = ['english_value', 'english_cardinal', 'english_ordinal', 'english_sub1000', 'spell_words_in_maps',
                      'spanish_sub1000', 'portuguese_sub1000', 'german_sub1000', 'dutch_sub1000',
@@ -29,7 +30,9 @@ REQUIRED_THEOREMS = ['english_value', 'english_cardinal', 'english_ordinal', 'en
                      'spanish_sub1e6', 'portuguese_sub1e6', 'german_sub1e6', 'dutch_sub1e6',
                      'cjk_walk_zh', 'cjk_walk_ja_partial', 'cjk_ordinal_is_cardinal', 'cjk_sign_restores', 'cjk_fraction_value',
                      'cjk_double_value', 'cjk_percent_scaled', 'cjk_parse_zh', 'cjk_cheng_zhe', 'cjk_point_single_digit',
-                     'cjk_ja_percent_never_parses', 'cjk_digit_by_digit_witness']
+                     'cjk_ja_percent_never_parses', 'cjk_digit_by_digit_witness',
+                     'spanish_cardinal', 'german_cardinal', 'dutch_cardinal', 'portuguese_cardinal_partial',
+                     'portuguese_e_mil_witness', 'scale_words_in_maps']
 RULE = ('unit: __get_int_value on every English numeral of the pipeline set + seeded token lists over each '
         "culture's map keys; pipeline: English n<10^4 (quick: every 7th + boundaries; thorough: all), 10^k, 10^k±1, "
         'seeded n<10^15, x 8 variants x cardinal/ordinal x alone/carrier; es fr pt de it nl zh ja: generator output '
@@ -502,6 +505,7 @@ def correspond(ctx):
     pipeline_english(ctx, spelled)
     pipeline_other(ctx)
     pipeline_big(ctx)
+    numbigcorr.run(ctx)        # es pt de nl at and above 10^6 (RTV.Num.spellHuge; theorems in Props/C04Big)
     pipeline_ordinals(ctx)
     key_ties(ctx)
     ctx.extra['english_values'] = len(ns)
